@@ -114,7 +114,9 @@ class World:
             try:
                 act.apply(step)
                 if k == "callback":
-                    act.hidden["cb_hook"] = self.cb_hook(act)
+                    from . import model as M
+
+                    M.CB_HOOKS[act.name] = self.cb_hook(act)
             except KeyError as e:
                 return "skipped"
             except Exception as e:
@@ -405,7 +407,10 @@ class World:
                     how, float(np.nanmax(np.abs(g1 - g2))) if g1.shape == g2.shape else "shape"))
             if it1 != it2:
                 raise Violation("solve-result-differs", "iteration counts differ: evolved %s, fresh %s" % (it1, it2))
-            c1, c2 = len(act.hidden.get("cb_log", [])), len(fresh.hidden.get("cb_log", []))
+            from . import model as M
+
+            c1 = len([1 for n_, _ in M.CB_LOG if n_ == act.name])
+            c2 = len([1 for n_, _ in M.CB_LOG if n_ == "fresh"])
             if act.spec.cb and (c2 > 0) != (c1 > 0):
                 raise Violation("callback-differs", "the callback ran %d times during solves of the evolved OCP but %d times on the fresh one" % (c1, c2))
         self.probe("real_solve_compared_with_fresh")
@@ -655,6 +660,10 @@ class Scheduler:
             if hz and any(g[0] == "expr" for _, g in sp.initial) and r.random() < 0.5:
                 t, s = G.pick(r, hz)
             g = G.gen_guess(r, t, s, N, cfg)
+            gp = [q for q in sp.names("parameter") if sp.sym(q).get("grid", "") == "" and sp.sym(q).get("rows", 1) * sp.sym(q).get("cols", 1) == 1]
+            if gp and s is not None and s["kind"] in ("state", "control") and s.get("rows", 1) * s.get("cols", 1) == 1 and r.random() < 0.15:
+                # a guess that mentions a parameter: it must follow later changes of that parameter's value
+                g = ["expr", ["*", ["s", G.pick(r, gp)], G.gen_time_expr(r)]]
             if hz and s is not None and s["kind"] in ("state", "control") and r.random() < 0.3:
                 rows = s.get("rows", 1) * s.get("cols", 1)
                 g = ["expr", G.gen_time_expr(r)] if rows == 1 else ["expr", ["vec"] + [G.gen_time_expr(r) for _ in range(rows)]]
@@ -746,7 +755,7 @@ class Scheduler:
             # placed: values for several parameters at once (documented concatenation form), given after a solve,
             # must reach the file: update, save, restart
             scal = [q for q in sp.names("parameter") if sp.sym(q).get("grid", "") == "" and sp.sym(q).get("rows", 1) * sp.sym(q).get("cols", 1) == 1 and sp.T != ["par", q]]
-            if len(scal) < 2 or sp.cb:
+            if len(scal) < 2:
                 return None
             two = r.sample(scal, 2)
             path = G.pick(r, self.paths)
